@@ -65,13 +65,21 @@ CoInit ==
      /\ (mixed => who = "k2")
      /\ scn = IF mixed THEN Mixed(kind, side) ELSE CoFiled(who, kind, side)
 
+\* the ord-th permutation of a sequence of length 2 or 3
+Permute(q, ord) ==
+  IF Len(q) = 2 THEN (IF ord % 2 = 0 THEN <<q[2], q[1]>> ELSE q)
+  ELSE CASE ord = 1 -> q [] ord = 2 -> <<q[1], q[3], q[2]>> [] ord = 3 -> <<q[2], q[1], q[3]>>
+         [] ord = 4 -> <<q[2], q[3], q[1]>> [] ord = 5 -> <<q[3], q[1], q[2]>> [] OTHER -> <<q[3], q[2], q[1]>>
+
 PlainInit ==
      \E thr \in {2, 3}, n \in {2, 3}, who \in {"k1", "k2", "k3"}, kind \in Kinds7,
-        side \in {"mats", "prods"}, ign \in {"none", "unauth", "badsig"} :
+        side \in {"mats", "prods"}, ign \in {"none", "unauth", "badsig"}, ord \in 1..6 :
+       \* the ORDER in which the layout lists the step's keys is free (all orders for dissent in a digest / an extra entry)
+       /\ (ord > 1 => kind \in {"digest", "extra"} /\ ign = "none")
        /\ (n = 2 => who # "k3")
        /\ (ign = "badsig" => n = 2)
        /\ LET signers == IF n = 2 THEN <<"k1", "k2">> ELSE <<"k1", "k2", "k3">>
-              pubs == IF ign = "badsig" THEN <<"k1", "k2", "k3">> ELSE signers
+              pubs == Permute(IF ign = "badsig" THEN <<"k1", "k2", "k3">> ELSE signers, ord)
           IN scn = Build(Layout(thr, pubs), Own("o1"),
                          [i \in 1..n |-> Entry(<< >>, "s1", signers[i],
                                                LinkFor(signers[i], signers[i] = who, kind, side))]
